@@ -281,14 +281,23 @@ def make_evaluator(kind, trace):
     if kind == "thread":
         from concurrent.futures import ThreadPoolExecutor
         ex = ThreadPoolExecutor(4)
-        return E.SubmitEvaluator(ex.submit), ex.shutdown
+        return E.SubmitEvaluator(ex.submit), (lambda: ex.shutdown(wait=False, cancel_futures=True))
     if kind == "apply":
         from multiprocessing.pool import ThreadPool
         pool = ThreadPool(3)
         return E.ApplyEvaluator(pool.apply_async), pool.terminate
     if kind == "process":
         ev = E.ProcessPoolEvaluator(2)
-        return ev, ev.close
+
+        def close_hard():
+            procs = list(getattr(ev.executor, "_processes", {}).values())
+            ev.executor.shutdown(wait=False, cancel_futures=True)
+            for pr in procs:
+                try:
+                    pr.terminate()
+                except Exception:
+                    pass
+        return ev, close_hard
     raise ValueError(kind)
 
 
@@ -360,7 +369,8 @@ def _alarm(signum, frame):
     raise RunTimeout("run exceeded the per-run watchdog")
 
 
-RUN_WATCHDOG_S = 30
+RUN_WATCHDOG_S = 15
+TIMEOUTS = 0
 
 
 def run_traced(name, spec, seed, size, budgets, evaluator="map", explicit=False, extreme=0.0, op_rng=None, log_frequency=None,
@@ -410,6 +420,9 @@ def run_traced(name, spec, seed, size, budgets, evaluator="map", explicit=False,
                 tr.events.append(("run_end", alg.nfe))
         except Exception as e:      # an observation, judged by the caller
             import traceback
+            if isinstance(e, RunTimeout):
+                global TIMEOUTS
+                TIMEOUTS += 1
             err = f"{type(e).__name__}: {e} @ " + traceback.format_exc().strip().split("\n")[-3].strip()
         finally:
             signal.alarm(0)
